@@ -1,4 +1,4 @@
-import Cbor.Lemmas.CountsOps
+import Cbor.Lemmas.CopyCounts
 /-!
 # C04 — reference counting frees everything exactly once for rule-following clients
 
@@ -7,9 +7,10 @@ references in *slots*; `own st r` is the number of slots holding `r`.  `Heap.Cou
 live item's reference count equals the number of references live containers hold to it plus the number the
 client owns, and that nothing refers to a released item.
 
-* `C04_step`: every API operation preserves `Counts`, provided the client breaks no rule (the model's
-  `fault` flag stays clear: it is raised exactly when an operation touches a released item, a slot it does
-  not own, an item of the wrong type, or a full slot).
+* `C04_step`: every API operation — including `cbor_copy` with all of its clean-up paths under any allocator
+  oracle, and `cbor_load` — preserves `Counts`, provided the client breaks no rule (the model's `fault` flag
+  stays clear: it is raised exactly when an operation touches a released item, a slot it does not own, an
+  item of the wrong type, or a full slot).
 * `C04_run`: hence `Counts` holds after every rule-following history.
 * `C04_no_use_after_release`: in a rule-following history no operation ever touched a released item.
 * `C04_all_released`: when the client owns nothing and the container graph is acyclic, no item is live — all
@@ -332,25 +333,50 @@ theorem C04_step_simple (ω : Oracle) (L : Nat) (st : St) (op : Op) (hs : Op.sim
   | copy s x => simp [Op.simple] at hs
   | load s b => simp [Op.simple] at hs
 
-/-- a history in which the client breaks no rule: after every operation the fault flag is still clear -/
-def RuleFollowing (ω : Oracle) (L : Nat) : St → List Op → Prop
-  | _, [] => True
-  | st, op :: ops => (step ω L st op).1.h.fault = false ∧ RuleFollowing ω L (step ω L st op).1 ops
-
-/-- **Every reachable state.**  After any rule-following history (of operations other than `copy` / `load`,
-which are covered by the correspondence only) every item's reference count equals the number of references
-that exist to it. -/
-theorem C04_run_partial (ω : Oracle) (L : Nat) : ∀ (ops : List Op) (st : St), (∀ op ∈ ops, Op.simple op = true) →
-    Counts st.h (own st) → RuleFollowing ω L st ops → Counts (run ω L st ops).h (own (run ω L st ops))
-  | [], st, _, hc, _ => hc
-  | op :: ops, st, hs, hc, hr => by
-    have h1 := C04_step_simple ω L st op (hs op (by simp)) hc hr.1
-    exact C04_run_partial ω L ops (step ω L st op).1 (fun o ho => hs o (by simp [ho])) h1 hr.2
+/-- **One step, any operation.**  `cbor_copy` (through all of its clean-up paths, for any allocator oracle) and
+`cbor_load` preserve the books as well. -/
+theorem C04_step (ω : Oracle) (L : Nat) (st : St) (op : Op)
+    (hc : Counts st.h (own st)) (hf : (step ω L st op).1.h.fault = false) :
+    Counts (step ω L st op).1.h (own (step ω L st op).1) := by
+  by_cases hs : Op.simple op = true
+  · exact C04_step_simple ω L st op hs hc hf
+  · cases op <;> simp [Op.simple] at hs
+    · rename_i s x
+      simp only [step] at hf ⊢
+      cases hx : st.slot x with
+      | none => simp [hx, St.bad, H.bad] at hf
+      | some rx =>
+        simp only [hx] at hf ⊢
+        have hcf := fresh_fault st s _ _ hf
+        exact fresh_counts st s _ _ ((copy_counts_all ω _).1 st.h rx (own st) hc hcf) hf
+    · rename_i s b
+      simp only [step] at hf ⊢
+      have hl := load_counts ω L st.h b.toArray (own st) hc
+      exact fresh_counts st s _ _ hl hf
 
 /-- the initial state (no items, no references) has its books in order -/
 theorem counts_init : Counts ({} : St).h (own {}) := by
   intro r
   simp [H.get, H.refs, own]
+
+/-- a history in which the client breaks no rule: after every operation the fault flag is still clear -/
+def RuleFollowing (ω : Oracle) (L : Nat) : St → List Op → Prop
+  | _, [] => True
+  | st, op :: ops => (step ω L st op).1.h.fault = false ∧ RuleFollowing ω L (step ω L st op).1 ops
+
+/-- **Every reachable state.**  After any rule-following history over the whole API, under any allocator oracle, every
+item's reference count equals the number of references that exist to it. -/
+theorem C04_run (ω : Oracle) (L : Nat) : ∀ (ops : List Op) (st : St),
+    Counts st.h (own st) → RuleFollowing ω L st ops → Counts (run ω L st ops).h (own (run ω L st ops))
+  | [], st, hc, _ => hc
+  | op :: ops, st, hc, hr => by
+    have h1 := C04_step ω L st op hc hr.1
+    exact C04_run ω L ops (step ω L st op).1 h1 hr.2
+
+/-- from the empty heap -/
+theorem C04_run_from_init (ω : Oracle) (L : Nat) (ops : List Op) (hr : RuleFollowing ω L {} ops) :
+    Counts (run ω L {} ops).h (own (run ω L {} ops)) :=
+  C04_run ω L ops {} counts_init hr
 
 /-- **No use after release.**  In a state whose books are in order, every reference a live container
 holds and every reference the client owns points at a live item. -/
